@@ -542,8 +542,30 @@ def b_check(E, st, fr, ins, args):
 
 
 def b_check_eq(E, st, fr, ins, args):
-    c = rcmp('eq', args[0], args[1])
-    _do_check(E, st, c, E.cstring(st, args[2]))
+    label = E.cstring(st, args[2])
+    a, b = args[0], args[1]
+    c = None
+    try:
+        an, ad = rparts(a)
+        bn, bd = rparts(b)
+        if not (is_conc_real(an) and is_conc_real(ad) and is_conc_real(bn) and is_conc_real(bd)):
+            # polynomial identity  an*bd - bn*ad == 0 : first through z3's rewriter in sum-of-monomials normal form
+            # (decides identities of the commutative ring without case analysis), then through the solver
+            d = z3.simplify(_rv(_mul(an, bd)) - _rv(_mul(bn, ad)), som=True)
+            if z3.is_rational_value(d):
+                c = (d.as_fraction() == 0)
+                if c:
+                    rec = E.res.chk(label)
+                    rec['discharged'] += 1
+                    rec['by_rewriter'] = rec.get('by_rewriter', 0) + 1
+                    return None
+            else:
+                c = (d == 0)
+    except EncodingLimit:
+        raise
+    if c is None:
+        c = rcmp('eq', a, b)
+    _do_check(E, st, c, label)
     return None
 
 
@@ -697,10 +719,15 @@ _OSTREAM = re.compile(r'^_Z(NSo|NSolsE|StlsI|St4endlI|St5flushI|St16__ostream_in
                       r'NSt9basic_iosI|NKSt9basic_iosI|St4setwi|NSolsEPFRSoS_E|NSt8ios_base)')
 
 
+_STDEXC = re.compile(r'^_ZNSt(11logic_error|13runtime_error|12length_error|12out_of_range|14overflow_error|16invalid_argument|12domain_error|9exception|9bad_alloc|8bad_cast)[CD][0-2]E')
+
+
 def lookup(E, name):
     b = EXACT.get(name)
     if b is not None:
         return b
+    if _STDEXC.match(name):
+        return b_nop
     for p, f in PREFIX:
         if name.startswith(p):
             return f
